@@ -253,8 +253,23 @@ def check_invariants(ctx, facts):
                 ctx.ok("C18.2", F, "(5) the sealed segment's leader is leader_node read before it is reassigned", ap.relfile, sl[0].line)
             else:
                 ctx.violate("C18.2", F, "sealed-segment-leader", ap.relfile, sl[0].line, "the leader recorded for the sealed segment is %s, not the outgoing leader_node" % show(v)[:50])
+    elif not ln_stores:
+        ctx.violate("C18.2", F, "leader-node-stores", ap.relfile, ap.line, "leader_node is never assigned in apply: a rollover cannot hand the topic to its new leader")
     else:
-        ctx.violate("C18.2", F, "leader-node-stores", ap.relfile, ap.line, "leader_node is assigned at %d sites in apply (expected 1, in the rollover arm)" % len(ln_stores))
+        # several assignments: each must be paired, on all of its paths to a return, with an insert of the very
+        # same value as the open segment's leader
+        rets = ap.return_blocks()
+        for lns in ln_stores:
+            newv = show(strip_refs(expr(ap, lns.node["rv"]["op"])))
+            mates = [s_ for s_ in leader_ins if show(strip_refs(expr(ap, s_.node["args"][2]))) == newv]
+            paired = bool(mates) and (any(m.bb == lns.bb for m in mates) or ap.must_pass([lns.bb], rets, [m.bb for m in mates])
+                                      or any(ap.dominates(m.bb, lns.bb) and ap.must_pass([m.bb], rets, [lns.bb]) for m in mates))
+            if paired:
+                ctx.ok("C18.2", F, "(5) leader_node := %s is paired with segment_leaders.insert(.., %s)" % (newv[:30], newv[:30]), ap.relfile, lns.line)
+            else:
+                ctx.violate("C18.2", F, "open-segment-leader-differs-from-topic-leader", ap.relfile, lns.line,
+                            "leader_node is set to %s on a path that does not also record %s as the leader of the open segment: segment_leaders[current_segment] and the topic "
+                            "leader disagree until the next rollover" % (newv[:40], newv[:40]))
     # (6) offset
     cnt_e = strip_refs(expr(ap, sealed_ins[0].node["args"][2]))
     for s in off_stores:
